@@ -254,7 +254,32 @@ pub fn gen(rng: &mut Rng, size: usize) -> Value {
 }
 
 // ------------------------------------------------------------------ C07
+/// ONE generated line with more than 2^16 segments (a one-line minified bundle), range flags on both sides of segment
+/// 65536, a second line after it.  Too large to be judged token by token: the judged relation is "the same segments
+/// carry the range flag after writing and reading back" (and the shifted answers of two lookups inside flagged ranges).
+fn run_bigline(case: &Value, em: &mut Emitter) {
+    let n = case["n"].as_u64().unwrap() as u32;
+    let flags: Vec<u32> = case["flags"].as_array().unwrap().iter().map(|x| x.as_u64().unwrap() as u32).collect();
+    let out = guard(|| {
+        let mut toks = Vec::with_capacity(n as usize + 1);
+        for i in 0..n {
+            toks.push(sourcemap::RawToken { dst_line: 0, dst_col: 2 * i, src_line: i % 5, src_col: i % 11, src_id: 0, name_id: !0, is_range: flags.contains(&i) });
+        }
+        toks.push(sourcemap::RawToken { dst_line: 1, dst_col: 3, src_line: 1, src_col: 1, src_id: 0, name_id: !0, is_range: flags.contains(&n) });
+        let sm = SourceMap::new(None, toks, vec![], vec!["a.js".into()], None);
+        let mut b = vec![];
+        if let Err(e) = sm.to_writer(&mut b) { return json!({"k": "err", "e": format!("{:?}", e)}); }
+        let sm2 = match SourceMap::from_slice(&b) { Ok(m) => m, Err(e) => return json!({"k": "err", "e": format!("{:?}", e)}) };
+        let flags2: Vec<u32> = sm2.tokens().enumerate().filter(|(_, t)| t.is_range()).map(|(i, _)| i as u32).collect();
+        // a lookup one column to the right of every flagged segment of line 0: the column offset within the range
+        let shifts: Vec<i64> = flags.iter().filter(|&&i| i < n).map(|&i| sm2.lookup_token(0, 2 * i + 1).map(|t| t.get_src_col() as i64 - (i % 11) as i64).unwrap_or(-99)).collect();
+        json!({"k": "ok", "n2": sm2.get_token_count(), "flags2": flags2, "shifts": shifts})
+    });
+    em.emit("bigline", json!({"n": n, "flags": flags, "nshift": flags.iter().filter(|&&i| i < n).count()}), out);
+}
+
 pub fn run_c07(case: &Value, em: &mut Emitter) {
+    if case["op"] == "bigline" { return run_bigline(case, em); }
     if case.get("qs").is_some() {
         run(case, em);
     } else {
@@ -262,6 +287,17 @@ pub fn run_c07(case: &Value, em: &mut Emitter) {
     }
 }
 pub fn gen_c07(rng: &mut Rng, size: usize) -> Value {
+    if rng.chance(1, 60) {
+        // segment counts next to 2^16 (and now and then 2^17): flags at the first segments, next to the boundary, at the end
+        let n = if rng.chance(1, 6) { (1u64 << 17) + rng.below(6) } else { (1u64 << 16) - 3 + rng.below(4000) };
+        let mut flags: Vec<u64> = vec![rng.below(20), (1 << 16) - 1 - rng.below(3), n - 1 - rng.below(3)];
+        for d in 0..3 { if (1 << 16) + d < n && rng.chance(2, 3) { flags.push((1 << 16) + d); } }
+        for _ in 0..rng.below(6) { flags.push(rng.below(n)); }
+        if rng.chance(1, 2) { flags.push(n); }
+        flags.retain(|&i| i <= n);
+        flags.sort(); flags.dedup();
+        return json!({"op": "bigline", "n": n, "flags": flags});
+    }
     match rng.below(4) {
         0 => {
             // a long line: up to 70 tokens (sometimes up to 330) on one line, random flag density incl. a lone flag
